@@ -15,13 +15,17 @@ CONFIGS = {
     'obj7': dict(MaxEvents=7, MaxDocs=1, Anchors=['a'], MapKinds=['map', 'obj'], SeqKinds=['seq'], ScalarAnchors=False),
     'core8': dict(MaxEvents=8, MaxDocs=2, Anchors=['a', 'b'], MapKinds=['map'], SeqKinds=['seq'], ScalarAnchors=True),
     'set8': dict(MaxEvents=8, MaxDocs=2, Anchors=['a'], MapKinds=['map', 'set'], SeqKinds=['seq'], ScalarAnchors=True),
+    # deep construction: the arguments of a python/object/apply node are built with deep=True
+    'app8': dict(MaxEvents=8, MaxDocs=1, Anchors=['a', 'b'], MapKinds=['map'], SeqKinds=['seq', 'app'], ScalarAnchors=False),
+    'app9': dict(MaxEvents=9, MaxDocs=1, Anchors=['a', 'b'], MapKinds=['map', 'obj'], SeqKinds=['seq', 'app'], ScalarAnchors=False),
     'obj8': dict(MaxEvents=8, MaxDocs=2, Anchors=['a', 'b'], MapKinds=['map', 'obj'], SeqKinds=['seq'], ScalarAnchors=False),
 }
-TIERS = {'quick': ['core7', 'set7', 'obj7'], 'thorough': ['core8', 'set8', 'obj8']}
+TIERS = {'quick': ['core7', 'set7', 'obj7', 'app8'], 'thorough': ['core8', 'set8', 'obj8', 'app9']}
 SAFE = ['SafeLoader', 'CSafeLoader']
 FULL = ['FullLoader', 'CFullLoader']
 UNSAFE = ['UnsafeLoader', 'CUnsafeLoader', 'Loader', 'CLoader']
 OBJTAG = '!!python/object:harness.canary.Obj '
+APPTAG = '!!python/object/apply:harness.canary.mkapp '
 
 
 def tla(v):
@@ -50,7 +54,7 @@ def print_stream(evs):
             while pos[0] < len(evs) and evs[pos[0]]['k'] != 'E':
                 items.append(node())
             pos[0] += 1
-            return anc + '[' + ', '.join(items) + ']'
+            return anc + (APPTAG if e['t'] == 'app' else '') + '[' + ', '.join(items) + ']'
         if e['k'] == 'M':
             items = []
             while pos[0] < len(evs) and evs[pos[0]]['k'] != 'E':
@@ -89,8 +93,8 @@ class Exp:
             ids[i] = len(ids)
             me = ids[i]
             c = n['c']
-            if k == 'seq':
-                return ('seq', me, [go2(x) for x in c])
+            if k in ('seq', 'app'):
+                return (k, me, [go2(x) for x in c])
             if k == 'set':
                 return ('set', me, sorted({'s%d' % x for x in c[0::2]}))
             pairs = {}
@@ -111,13 +115,13 @@ class Exp:
             k, c = n['kind'], n['c']
             if k == 's':
                 return ('s', me, 's%d' % i)
-            if k == 'seq':
+            if k in ('seq', 'app'):
                 return ('seq', me, [go(x) for x in c])
             return ('map', me, [(go(a), go(b)) for a, b in zip(c[0::2], c[1::2])])
         return go(r)
 
 
-def proj_obj(o, Obj):
+def proj_obj(o, Obj, App=None):
     ids = {}
 
     def go(x):
@@ -137,6 +141,8 @@ def proj_obj(o, Obj):
             return ('map', me, [(go(k), go(v)) for k, v in x.items()])
         if type(x) is Obj:
             return ('obj', me, [(go(k), go(v)) for k, v in x.__dict__.items()])
+        if App is not None and type(x) is App:
+            return ('app', me, [go(y) for y in x.args])
         return ('?', repr(type(x)))
     return go(o)
 
@@ -160,7 +166,7 @@ def proj_node(n, nodes):
 def work(states, extra):
     yaml = use_repo()
     from yaml import nodes
-    from harness.canary import Obj
+    from harness.canary import Obj, App
     loaders = [getattr(yaml, n) for n in extra['loaders']]
     res = {'n': 0, 'tested': 0, 'bad': [], 'samples': [], 'nontrivial': 0, 'outcomes': {}}
     for st in states:
@@ -176,18 +182,18 @@ def work(states, extra):
             res['nontrivial'] += 1
         text = print_stream(evs)
         ex = Exp(heap)
-        nobj = len(roots) - 1 if outcome == 'unhashable_key' else len(roots)
+        nobj = len(roots) - 1 if outcome in ('unhashable_key', 'unconstructable') else len(roots)
         exp_objs = [ex.obj(r) for r in roots[:nobj]]
         exp_nodes = [ex.node(r) for r in roots]
         exp_err = {'run': None, 'undefined_alias': 'ComposerError', 'duplicate_anchor': 'ComposerError',
-                   'unhashable_key': 'ConstructorError'}[outcome]
-        exp_nerr = None if outcome in ('run', 'unhashable_key') else 'ComposerError'
+                   'unhashable_key': 'ConstructorError', 'unconstructable': 'ConstructorError', 'deep_soft': None}[outcome]
+        exp_nerr = None if outcome in ('run', 'unhashable_key', 'unconstructable', 'deep_soft') else 'ComposerError'
         for L in loaders:
             # object level
             got, err = [], None
             try:
                 for d in yaml.load_all(text, Loader=L):
-                    got.append(proj_obj(d, Obj))
+                    got.append(proj_obj(d, Obj, App))
             except yaml.YAMLError as e:
                 err = type(e).__name__
             except RecursionError:
@@ -195,7 +201,9 @@ def work(states, extra):
             except Exception as e:
                 err = 'exception:' + type(e).__name__
             why = None
-            if err != exp_err:
+            if outcome == 'deep_soft' and err == 'ConstructorError' and got == exp_objs[:len(got)]:
+                pass        # a self-reference inside deep-constructed arguments: the implementation's documented limit
+            elif err != exp_err:
                 why = 'load_all: expected %s after %d documents, got %s after %d' % (exp_err, nobj, err, len(got))
             elif got != exp_objs:
                 why = 'load_all: object graph / identity differs: %r expected %r' % (got, exp_objs)
@@ -227,7 +235,7 @@ def main(tier, replay=None):
     samples, outcomes = [], {}
     for name in TIERS[tier]:
         cfg = CONFIGS[name]
-        if 'obj' in cfg['MapKinds']:
+        if 'obj' in cfg['MapKinds'] or 'app' in cfg['SeqKinds']:
             loaders = UNSAFE[:2] if tier == 'quick' else UNSAFE
         else:
             loaders = SAFE if tier == 'quick' else SAFE + FULL + UNSAFE[:2]
@@ -253,7 +261,7 @@ def main(tier, replay=None):
             for b in o['bad']:
                 v.violation({'config': name, 'loader': b['loader'], 'outcome': b['outcome'], 'kinds': b['kinds']}, b)
         os.remove(r.dump)
-    for k in ['run', 'undefined_alias', 'duplicate_anchor', 'unhashable_key']:
+    for k in ['run', 'undefined_alias', 'duplicate_anchor', 'unhashable_key', 'unconstructable', 'deep_soft']:
         if not outcomes.get(k):
             raise SystemExit('machinery failure: no stream with outcome %s was generated (vacuous)' % k)
     v.cov = {'states': states, 'transitions': trans, 'traces_validated_against_impl': traces, 'exhaustive': True,
